@@ -258,7 +258,7 @@ func CheckC11(r *Run) int {
 	quick := r.Tier == "quick"
 	nRaw := 3
 	if quick {
-		nRaw = 2
+		nRaw = 3
 	}
 	total, nontrivial := 0, 0
 	onPath := func(pr *gosym.PathResult) {
